@@ -155,7 +155,7 @@ pub fn c14(tier: &str) -> ! {
     let shm = Arc::new(Shm::new(1 << 10, 16 << 20));
     // (i) the public policy: one job per bits_per_key
     let shm2 = Arc::clone(&shm);
-    let max_set = if t { 3 } else { 2 };
+    let max_set = 3;
     let big: Vec<usize> = if t { vec![10, 100, 1000, 5000, 20000] } else { vec![10, 100, 1000] };
     // bits_per_key settings: every value 1..=64 (thorough 1..=128) and a few large ones
     let mut bits: Vec<usize> = (1..=if t { 128 } else { 64 }).collect();
@@ -199,7 +199,7 @@ pub fn c14(tier: &str) -> ! {
     rep.cov("bloom_membership_checks", json!(shm.get(C_USER + 3)));
     rep.cov("tables_checked", json!(cases.len()));
     rep.cov("block_filter_checks", json!(shm.get(C_USER + 2)));
-    rep.cov("rule", json!("(i) one evaluation = one filter created by the public BloomFilterPolicy for a key multiset (all multisets of size 0..2 (thorough 3) over the 40 byte strings of length 0..3 over {00,61,ff}; generated sets of 10/100/1000(/5000) keys with and without duplicates) for each bits_per_key in 1..=64 u {100, 1000} (thorough 1..=128 u {200,255,256,1000,4096}, sets up to 20000 keys); every member must answer Ok(true), also when the filter is read by a policy constructed with another bits_per_key (the probe count travels in the filter). (ii) one evaluation = one table (C13's sets plus tables with 3000-byte values and 1-byte .. 1 MiB blocks): for every data block and every user key stored in it the filter block consulted with the block's offset answers 'may match', and get finds every stored (key, seq). distinct_nontrivial = filters over >= 2 keys plus tables with > 1 block or > 3 entries"));
+    rep.cov("rule", json!("(i) one evaluation = one filter created by the public BloomFilterPolicy for a key multiset (all multisets of size 0..3 over the 40 byte strings of length 0..3 over {00,61,ff}; generated sets of 10/100/1000(/5000) keys with and without duplicates) for each bits_per_key in 1..=64 u {100, 1000} (thorough 1..=128 u {200,255,256,1000,4096}, sets up to 20000 keys); every member must answer Ok(true), also when the filter is read by a policy constructed with another bits_per_key (the probe count travels in the filter). (ii) one evaluation = one table (C13's sets plus tables with 3000-byte values and 1-byte .. 1 MiB blocks): for every data block and every user key stored in it the filter block consulted with the block's offset answers 'may match', and get finds every stored (key, seq). distinct_nontrivial = filters over >= 2 keys plus tables with > 1 block or > 3 entries"));
     rep.cov_push("samples", json!({"bloom": {"bits_per_key": 10, "set": ["\"\"", "\\x00", "a\\xff"]}}));
     for c in cases.iter().rev().take(2) {
         rep.cov_push("samples", table_case_json(c));
